@@ -113,7 +113,13 @@ class C02Monitor(BookTracker):
 
     def reflexive(self, a):
         x = a.obj
-        if (x < x) or (x > x) or not (x == x) or (x != x) or not (x <= x) or not (x >= x):
+        try:
+            bad = (x < x) or (x > x) or not (x == x) or (x != x) or not (x <= x) or not (x >= x)
+        except Exception as e:  # noqa
+            self.res.violation("order", "comparison-raises-on-accepted-same-side-orders",
+                               {"a": a.brief(), "b": "(the same order)", "exc": repr(e)})
+            return
+        if bad:
             self.res.violation("order", "comparison-not-irreflexive", {"a": a.brief()})
 
     # ---- hooks ------------------------------------------------------------
